@@ -253,6 +253,12 @@ func (c *Ctx) Once(caseID string, body vsched.Body) {
 // Case runs a plain (scheduler-free) E2 case; f returns failure messages.
 func (c *Ctx) Case(caseID string, f func() []string) {
 	if c.Replay != nil && c.Replay.Scenario != caseID {
+		// not the case asked for: run it silently all the same, the searches that build their frontier
+		// from what a case computes (state keys) need it to reach the deeper cases
+		func() {
+			defer func() { recover() }()
+			f()
+		}()
 		return
 	}
 	var fails []string
